@@ -30,6 +30,7 @@ mod c14_stream;
 mod formats;
 mod http;
 mod memsrc;
+mod naming;
 mod mvt;
 mod pipeline;
 
